@@ -171,6 +171,8 @@ def execute(scenario):
     result.trace = {"expected": expected[:6], "actual": outcome["items"][:6], "closed": outcome["closed"]}
 
     features = ["format=" + fmt]
+    if run.stream_closed_behind_callers_back():
+        raise core.Violation("caller-stream-closed-by-cutplace", features, "the stream passed in as data source is closed after the run")
     if outcome["raised"] is not None:
         raise core.Violation("yield-mode-raised", features + ["class=" + outcome["raised"]["class"]],
                              "yield mode raised %r" % (outcome["raised"],))
